@@ -85,12 +85,8 @@ fn check_hex_escape<const N: usize>(letter: u8, digits: usize) {
             let c = s.chars().next();
             assert!(c.map(|c| c as u32) == Some(want) && s.len() == char::from_u32(want).unwrap().len_utf8());
             kani::cover!(value >= 0x80, "non-ASCII value");
-            if digits >= 4 {
-                kani::cover!(want == 0xFFFD && value != 0xFFFD, "lone surrogate replaced");
-            }
-            if digits == 8 {
-                kani::cover!(value > 0xFFFF, "astral value");
-            }
+            kani::cover!(digits < 4 || (want == 0xFFFD && value != 0xFFFD), "lone surrogate replaced (4+ digits)");
+            kani::cover!(digits < 8 || value > 0xFFFF, "astral value (8 digits)");
         }
         Err(e) => {
             // rejected: a non-hex digit, or a value above U+10FFFF
@@ -99,9 +95,7 @@ fn check_hex_escape<const N: usize>(letter: u8, digits: usize) {
             let loc = u32::from(e.location);
             assert!(loc >= start && loc <= start + 100);
             kani::cover!(!all_hex, "non-hex digit rejected");
-            if digits == 8 {
-                kani::cover!(all_hex, "value above U+10FFFF rejected");
-            }
+            kani::cover!(digits < 8 || all_hex, "value above U+10FFFF rejected (8 digits)");
         }
     }
     std::mem::forget(r);
